@@ -208,14 +208,14 @@ SINK_MODULES = [
 
 def _collectors(ctx: Ctx, ex: Extractor, rels) -> set[str]:
     """Project functions that read character data below an Element parameter (directly or through callees)."""
-    from sa.engine.treewalk import Call, Emit, GenLoop, Guard, Loop
+    from sa.engine.treewalk import Call, Emit, GenLoop, Guard, Loop, Same
     memo: dict[tuple, bool] = {}
 
     def emits(acts, depth=0) -> bool:
         for a in acts:
             if isinstance(a, Emit):
                 return True
-            if isinstance(a, (Loop, GenLoop)) and emits(a.body, depth):
+            if isinstance(a, (Loop, GenLoop, Same)) and emits(a.body, depth):
                 return True
             if isinstance(a, Guard) and (emits(a.body, depth) or emits(a.orelse, depth)):
                 return True
